@@ -302,19 +302,14 @@ Section WithTracker.
   Definition is_uiface (u : ukind) : bool := match u with UIface => true | _ => false end.
   Definition is_umap (u : ukind) : bool := match u with UMap => true | _ => false end.
 
-  (* copy_fields.go:59-64 (repair C18-replace-on-alias-field): `fieldType := f.Type()`, and if types.Unalias(fieldType) is a
-     *types.Named (error included) the switch runs on that named type; every other alias stays a *types.Alias.
-     [ua] = false is the code before the repair: no unaliasing at all *)
-  Definition switch_type (ua : bool) (t : ty) : ty :=
-    if ua then match unalias t with
-               | TNamed p n u ms => TNamed p n u ms
-               | TError => TError
-               | _ => t
-               end
-    else t.
+  (* copy_fields.go:63-69 (repairs bf0d8cc, adc5fac): `declared := f.Type(); switch x := types.Unalias(declared).(type)` - the
+     switch runs on the type the field's (alias) type denotes.  [ua] = false is the code before the two repairs: the switch
+     ran on f.Type() itself and had no case for *types.Alias *)
+  Definition switch_type (ua : bool) (t : ty) : ty := if ua then unalias t else t.
 
   (* createFieldSnippet; [replaced] = the FieldContext callback of partialstruct returned a context.  The type
-     expression of a container copy is rendered from the switch variable x (snippet.ID(x)) *)
+     expression of a container copy is rendered from the DECLARED type (snippet.ID(declared)): an alias keeps its name in
+     make(...); before the repairs it was snippet.ID(x) with x = f.Type() a slice / map type itself - the same text *)
   Definition field_stmt_gen (ua : bool) (replaced : bool) (f : field) : genres stmt :=
     let t := switch_type ua (f_ty f) in
     match t with
@@ -332,10 +327,9 @@ Section WithTracker.
         if replaced then GOk (select_named (f_name f) (true, true, true)) []
         else if fx_errnil c then GOk (SAssign (f_name f)) []     (* guarded: error has the single method Error *)
         else GPanic                                                (* x.Obj().Pkg().Path() on a nil package *)
-    | TMap _ _ => let (o, i) := type_lit t in GOk (SCopyMap (f_name f) o) i
-    | TSlice _ => let (o, i) := type_lit t in GOk (SCopySlice (f_name f) o) i
-    | _ => GOk (SAssign (f_name f)) []      (* also an alias of anything but a named type: the type switch has no case for
-                                               *types.Alias; the FieldContext callback is not consulted *)
+    | TMap _ _ => let (o, i) := field_type_lit (f_ty f) in GOk (SCopyMap (f_name f) o) i
+    | TSlice _ => let (o, i) := field_type_lit (f_ty f) in GOk (SCopySlice (f_name f) o) i
+    | _ => GOk (SAssign (f_name f)) []      (* before the repairs also every alias-typed field *)
     end.
 
   Definition field_stmt : bool -> field -> genres stmt := field_stmt_gen true.
@@ -390,6 +384,10 @@ Section WithTracker.
 
   Inductive errkind := EMustStruct | ENeedNamed.
 
+  (* the names the copy loop passes over: the blank identifier and the omitted fields *)
+  Definition blank_name : bytes := bs "_".
+  Definition copy_skip (omit : list bytes) : list bytes := blank_name :: omit.
+
   Record gtype := mk_gtype {
     g_name : bytes;                  (* @Type *)
     g_origin : oty;                  (* @OriginType *)
@@ -430,7 +428,9 @@ Section WithTracker.
                 match gen_fields_loop (ti_omit ti) repl fs [] [] with
                 | GOk gfs i1 =>
                     let (oref, i2) := origin_ref o in
-                    match gen_stmts_loop (ti_omit ti) repl fs [] [] with
+                    (* StructFieldsCopy.Frag (repair adc955a): the field named `_` is skipped like the fields the Skip
+                       callback (the omit set) names *)
+                    match gen_stmts_loop (copy_skip (ti_omit ti)) repl fs [] [] with
                     | GOk sts i3 => TGen (mk_gtype gname oref gfs sts) (i1 ++ i2 ++ i3)
                     | GPanic => TPanic
                     | GGeneric => TGeneric
@@ -623,8 +623,8 @@ Definition shadow_type (target : bytes) (ti : tinput) : bool :=
   | Some fs, Some (opkg, _) =>
       (negb (bytes_eqb opkg target) && bytes_eqb (last_segment opkg) (bs "in"))
       || existsb (fun f =>
-           negb (omitted (ti_omit ti) (f_name f)) && is_container (f_ty f)
-           && existsb (fun p => negb (bytes_eqb p target) && name_in (last_segment p) shadow_names_block) (ty_pkgs (f_ty f)))
+           negb (omitted (copy_skip (ti_omit ti)) (f_name f)) && is_container (unalias (f_ty f))
+           && existsb (fun p => negb (bytes_eqb p target) && name_in (last_segment p) shadow_names_block) (fty_pkgs (f_ty f)))
          fs
   | _, _ => false
   end.
